@@ -9,12 +9,45 @@ use crate::{
 use byteorder::{LittleEndian, ReadBytesExt};
 use std::path::Path;
 
-pub fn get_current_version(folder: &std::path::Path) -> crate::Result<VersionId> {
-    use byteorder::{LittleEndian, ReadBytesExt};
+/// Reads the `current` file: the ID of the current version and the checksum of its version file.
+fn get_current_version_and_checksum(
+    folder: &std::path::Path,
+) -> crate::Result<(VersionId, Checksum)> {
+    let mut file = std::fs::File::open(folder.join(CURRENT_VERSION_FILE))?;
+    decode_current(&mut file)
+}
 
-    std::fs::File::open(folder.join(CURRENT_VERSION_FILE))
-        .and_then(|mut f| f.read_u64::<LittleEndian>())
-        .map_err(Into::into)
+fn decode_current<R: std::io::Read>(reader: &mut R) -> crate::Result<(VersionId, Checksum)> {
+    let id = reader.read_u64::<LittleEndian>()?;
+    let checksum = reader.read_u128::<LittleEndian>()?;
+    let checksum_type = reader.read_u8()?;
+
+    if checksum_type != 0 {
+        return Err(crate::Error::InvalidTag(("ChecksumType", checksum_type)));
+    }
+
+    Ok((id, Checksum::from_raw(checksum)))
+}
+
+/// Hashes everything the reader yields, and compares the result to the expected checksum.
+fn verify_checksum<R: std::io::Read>(reader: &mut R, expected: Checksum) -> crate::Result<()> {
+    use std::io::Write;
+
+    let mut hasher = crate::checksum::ChecksummedWriter::new(std::io::sink());
+    let mut buf = [0u8; 4_096];
+
+    loop {
+        let n = match reader.read(&mut buf) {
+            Ok(0) => break,
+            Ok(n) => n,
+            Err(e) if e.kind() == std::io::ErrorKind::Interrupted => continue,
+            Err(e) => return Err(e.into()),
+        };
+
+        hasher.write_all(buf.get(..n).unwrap_or_default())?;
+    }
+
+    hasher.checksum().check(expected)
 }
 
 pub struct RecoveredTable {
@@ -32,15 +65,23 @@ pub struct Recovery {
 }
 
 pub fn recover(folder: &Path) -> crate::Result<Recovery> {
-    let curr_version_id = get_current_version(folder)?;
+    let (curr_version_id, expected_checksum) = get_current_version_and_checksum(folder)?;
     let version_file_path = folder.join(format!("v{curr_version_id}"));
-
-    // TODO: maybe validate current version using the checksum in "current"
 
     log::info!(
         "Recovering current manifest at {}",
         version_file_path.display(),
     );
+
+    // NOTE: The version file's sections are not checksummed individually, so validate
+    // the whole file against the checksum stored in "current" before trusting its contents
+    verify_checksum(
+        &mut std::fs::File::open(&version_file_path)?,
+        expected_checksum,
+    )
+    .inspect_err(|e| {
+        log::error!("Version file #{curr_version_id} does not match its checksum: {e:?}");
+    })?;
 
     let reader = sfa::Reader::new(&version_file_path)?;
     let toc = reader.toc();
